@@ -1,7 +1,7 @@
 (* Extract.v — extraction of the executable model to OCaml.
    Directives: only those of ExtrOcamlBasic (bool, option, unit, prod, list,
    sumbool, sumor -> native OCaml types).  positive/N/Z/nat stay Coq inductives. *)
-From PauLie Require Import Pauli Matrix Sym ClosureN LieInv Star Validator Member Collection PauliBits.
+From PauLie Require Import Pauli Matrix Sym ClosureN LieInv Star Validator Member Collection PauliBits Parser.
 Require Extraction ExtrOcamlBasic.
 Extraction Language OCaml.
 Extraction "oracle.ml"
@@ -13,4 +13,5 @@ Extraction "oracle.ml"
   reduction_check_strs shape_acct_strs
   member_strs space_strs
   mk run
-  fresh apply_edit set_substring inc text get_index get_diagonal_index gen_all.
+  fresh apply_edit set_substring inc text get_index get_diagonal_index gen_all
+  parse_text k_local_generators.
